@@ -160,6 +160,51 @@ class ChildrenOrder(Case):
         return sample_collection(rng)
 
 
+class IdQueryBounds(Case):
+    """_return_collection_for_id_queries (shared by every identifier / GUID query): the result spans the source
+    bounds AND every kept member - min over ALL kept members' starts, max over ALL their ends, whatever the order in
+    which they are kept (genes before feature collections, id-list order, nesting) - and keeps exactly those members.
+    The source collection has explicit bounds that its members may overhang (as after a relaxed position query)."""
+    props = ("C09", "C20")
+    name = "AnnotationCollection._return_collection_for_id_queries[bounds = hull of source bounds and kept members]"
+    func = AC + "._return_collection_for_id_queries"
+    module = "gene.collections"
+    shard_depth = 3
+    call = ("(lambda r: (r.start, r.end, [g.gene_id for g in r.genes], "
+            "[c.feature_collection_id for c in r.feature_collections]))"
+            "(col._return_collection_for_id_queries([kids[0]], [kids[1]], []))")
+    ensures = {
+        "bounds-are-the-hull": lambda i, r: And(r[0] == Min(i.lo, Min(i.info[0].s, i.info[1].s)),
+                                                r[1] == Max(i.hi, Max(i.info[0].e, i.info[1].e))),
+        "members-kept": lambda i, r: And(list(r[2]) == ["g0"], list(r[3]) == ["fc"]),
+    }
+
+    def inputs(self, S):
+        strand = strand_of(S, "strand")
+        info, kids = [], []
+        for j in range(2):
+            s, e = S.int(f"s{j}"), S.int(f"e{j}")
+            S.assume(And(0 <= s, s < e))
+            info.append(NS(s=s, e=e))
+        tx = S.new(TRANSCRIPT, [info[0].s], [info[0].e], strand, transcript_id="tx0")
+        kids.append(S.new(GENE, [tx], gene_id="g0"))
+        f = S.new(FEATURE, [info[1].s], [info[1].e], strand, feature_id="f1")
+        kids.append(S.new(FCOL, [f], feature_collection_id="fc"))
+        lo, hi = S.int("col_start"), S.int("col_end")
+        S.assume(And(0 <= lo, lo < hi))
+        col = S.new(AC, genes=[kids[0]], feature_collections=[kids[1]], start=lo, end=hi)
+        return NS(col=col, kids=kids, info=info, lo=lo, hi=hi)
+
+    def samples(self, rng):
+        d = dict(strand=rng.choice(["PLUS", "MINUS"]))
+        for j in range(2):
+            s = rng.randint(0, 30)
+            d[f"s{j}"], d[f"e{j}"] = s, s + rng.randint(1, 20)
+        lo = rng.randint(0, 30)
+        d.update(col_start=lo, col_end=lo + rng.randint(1, 20))
+        return d
+
+
 class ChildrenOrder3(ChildrenOrder):
     tier = "thorough"
 
@@ -169,4 +214,4 @@ K3 = ("coding", "noncoding", "feature")
 CASES = [QueryByPosition(True, ("coding", "feature")), QueryByPosition(False, ("coding", "feature")),
          QueryByPosition(True, ("noncoding", "coding")), QueryByPosition(False, ("mixed", "noncoding")),
          QueryByPosition(True, K3), QueryByPosition(False, K3), QueryValidation(), ChildrenOrder(),
-         QueryByPosition(False, ("split", "feature")), QueryByPosition(True, ("split", "feature"))]
+         QueryByPosition(False, ("split", "feature")), QueryByPosition(True, ("split", "feature")), IdQueryBounds()]
